@@ -2,6 +2,7 @@ package main
 
 import (
 	"context"
+	"errors"
 	"fmt"
 	"os"
 	"sort"
@@ -16,7 +17,14 @@ import (
 func (wd *world) invoke(op string, o *opctx) (v interface{}, err error) {
 	ctx := o.ctx
 	key := wd.keys[o.k-1]
-	data := opData{o.k, o.d}
+	var data interface{} = opData{o.k, o.d}
+	switch wd.cfg.DK {
+	case "ptr":
+		data = &opData{o.k, o.d}
+	case "nil":
+		data = nil
+	}
+	o.data = data
 	load := func(_ context.Context, k interface{}) (interface{}, error) {
 		r, e := wd.call(o, "load", wd.keyArg(k), 0, 0)
 		if e != nil {
@@ -25,7 +33,7 @@ func (wd *world) invoke(op string, o *opctx) (v interface{}, err error) {
 		return wd.mkVal(r), nil
 	}
 	add := func(_ context.Context, d interface{}) (interface{}, error) {
-		k, dd := dataArg(d)
+		k, dd := dataArg(o, d)
 		r, e := wd.call(o, "add", k, dd, 0)
 		if e != nil {
 			return nil, e
@@ -34,8 +42,8 @@ func (wd *world) invoke(op string, o *opctx) (v interface{}, err error) {
 	}
 	mod := func(fn string) func(context.Context, interface{}, interface{}) (interface{}, error) {
 		return func(_ context.Context, d interface{}, pre interface{}) (interface{}, error) {
-			k, dd := dataArg(d)
-			r, e := wd.call(o, fn, k, dd, preArg(pre))
+			k, dd := dataArg(o, d)
+			r, e := wd.call(o, fn, k, dd, wd.preArg(pre))
 			if e != nil {
 				return nil, e
 			}
@@ -46,7 +54,7 @@ func (wd *world) invoke(op string, o *opctx) (v interface{}, err error) {
 		_, e := wd.call(o, "del", wd.keyArg(k), 0, 0)
 		return e
 	}
-	isNF := func(e error) bool { return e == errNF }
+	isNF := func(e error) bool { return errors.Is(e, errNF) }
 	g := wd.grp
 	switch op {
 	case "get":
@@ -75,9 +83,13 @@ func (wd *world) submit(op string, k int, f, g []int) func() interface{} {
 }
 
 func (wd *world) submit2(op string, k int, f, g []int) (*opctx, func() interface{}) {
+	op = wd.allowed(op)
 	wd.mu.Lock()
 	wd.nid++
 	o := &opctx{id: wd.nid, k: k, d: wd.nid, f: f, g: g}
+	if wd.nilKind() {
+		o.d = nilRow
+	}
 	o.ctx, o.cancel = context.WithCancel(context.Background())
 	if has(g, 9) { // the call is made with a context that has already ended
 		o.cancelled = true
@@ -98,12 +110,15 @@ func (wd *world) submit2(op string, k int, f, g []int) (*opctx, func() interface
 		case err != nil && v != nil:
 			r["e"] = "value-with-error"
 		case err != nil:
-			r["e"] = errName(err)
+			r["e"] = wd.errName(o, err)
 		case v != nil:
-			r["v"] = toInt(v)
+			r["v"] = wd.toInt(v)
 			wd.retain(r, v)
 		case op != "del":
-			r["v"] = nilVal // (nil, nil) from anything but delete
+			r["v"] = wd.toInt(nil) // (nil, nil) from anything but delete: a nil row, where rows are nil
+		}
+		if p, isPtr := o.data.(*opData); isPtr && !o.cancelled && err != context.Canceled {
+			p.k, p.d = -1, nilVal // the call is over: the caller reuses its datum
 		}
 		wd.mu.Lock()
 		delete(wd.out, o.id)
@@ -124,7 +139,7 @@ func (wd *world) flush(w *tr.W) {
 	}
 	wd.mu.Lock()
 	for _, x := range wd.kept {
-		x.e["v"] = toInt(x.v)
+		x.e["v"] = wd.toInt(x.v)
 	}
 	wd.kept = nil
 	evs := wd.evs
@@ -238,7 +253,7 @@ func (wd *world) emitReset(w *tr.W) {
 		edeep = mux.DefaultDeepSize
 	}
 	w.Emit(tr.E{"ev": "reset", "nk": c.NK, "nw": c.NW, "facade": c.Facade, "cap": c.Cap, "deep": c.Deep,
-		"kt": c.KT, "sized": c.Sized, "serial": c.Serial, "src": c.Src, "ptr": c.Ptr, "late": c.Late,
+		"kt": c.KT, "sized": c.Sized, "serial": c.Serial, "src": c.Src, "ptr": c.Ptr, "late": c.Late, "vk": c.VK, "dk": c.DK, "ek": c.EK, "wrapnf": c.WrapNF,
 		"startat": c.StartAt, "stopat": c.StopAt,
 		"emux": emux, "edeep": edeep, "gmux": wd.grp.MuxSize(), "gdeep": wd.grp.DeepSize()})
 }
@@ -321,6 +336,10 @@ func runSteps(w *tr.W, cfg config, plan []step) {
 			}
 			wd.issue(wd.submit(s.Op, s.K, s.F, s.G))
 			wd.settle(w)
+		case "rep":
+			if s.K >= 1 && s.K <= cfg.NK && wd.repeatGet(s.K, s.ID) {
+				wd.settle(w)
+			}
 		case "cancel":
 			// the context of an outstanding call ends; half of the time the caller's next call (the next
 			// plan step, if it is a call) follows in the same goroutine right after the return
@@ -378,5 +397,68 @@ func (wd *world) cancelOp(id int, fol *step) bool {
 	o.follow = fol
 	wd.mu.Unlock()
 	o.cancel()
+	return true
+}
+
+// allowed: histories whose rows are nil cannot express "no existing item" (typed nil: only the upsert
+// marker is lost), so the operations that depend on it are replaced.
+func (wd *world) allowed(op string) string {
+	switch wd.cfg.VK {
+	case "nil":
+		switch op {
+		case "upd", "utl":
+			return "add"
+		case "uoa", "utr":
+			return "get"
+		}
+	case "nilp":
+		switch op {
+		case "utl":
+			return "upd"
+		case "utr":
+			return "uoa"
+		}
+	}
+	return op
+}
+
+// repeatGet: n DoGet calls of a cached key by one goroutine, logged as ONE run-length-encoded event:
+// how many replies were ok and equal to the first, the first value, how often the store was consulted.
+// Only when nothing is outstanding and the key is cached (else the plan step is skipped).
+func (wd *world) repeatGet(k, n int) bool {
+	wd.mu.Lock()
+	busy := len(wd.out) > 0 || len(wd.gates) > 0
+	wd.mu.Unlock()
+	if busy || len(wd.peekAll(k)) == 0 || !wd.started || wd.stopped {
+		return false
+	}
+	key := wd.keys[k-1]
+	wd.issue(func() interface{} {
+		consulted, same, first := 0, 0, nilVal
+		load := func(context.Context, interface{}) (interface{}, error) {
+			consulted++
+			return nil, errNF
+		}
+		defer func() {
+			if p := recover(); p != nil {
+				wd.logf(tr.E{"ev": "panic", "id": 0, "op": "rep", "k": k, "msg": fmt.Sprint(p)})
+			}
+		}()
+		for i := 0; i < n; i++ {
+			v, err := wd.grp.DoGet(context.Background(), load, key)
+			x := nilVal
+			if err == nil {
+				x = wd.toInt(v)
+			}
+			if i == 0 {
+				first = x
+			}
+			if err == nil && x == first {
+				same++
+			}
+		}
+		wd.logf(tr.E{"ev": "run", "k": k, "n": n, "same": same, "v": first, "consulted": consulted})
+		return 0
+	})
 	return true
 }
